@@ -334,12 +334,6 @@ theorem canon_tree_idem (fp : FloatCodec) (hn : NumStable fp) (t : JV) (h : stri
   rw [respell_fixed fp _ hfix]
   exact sortTree_fixed _ good.2 good.1
 
-/-- Two trees are *canonically equivalent* when, after re-spelling every literal, they agree up to the order of the
-members of their objects (at every depth).  Whitespace never reaches the tree (`tokenize` drops it); `respell` only
-looks at the text of a string literal and at the float value of a number literal (`respell_congr_*` below); `PermEq`
-allows any permutation of the members of any object. -/
-def CanonEquiv (fp : FloatCodec) (t u : JV) : Prop := PermEq (respell fp t) (respell fp u)
-
 /-- `canon_class` (tree level): canonically equivalent strict trees have the same canonical tree. -/
 theorem canon_tree_class (fp : FloatCodec) (t u : JV) (ht : strict t = true) (he : CanonEquiv fp t u) :
     canonTree fp t = canonTree fp u :=
